@@ -1,10 +1,12 @@
 mod c13;
 mod c46;
+mod c47;
 mod dag;
 use vkit::{Check, Level};
 fn main() {
     vkit::main(&[
         Check { id: "C13", level: Level::Exploration, run: c13::run },
         Check { id: "C46", level: Level::Exploration, run: c46::run },
+        Check { id: "C47", level: Level::Exploration, run: c47::run },
     ]);
 }
